@@ -81,7 +81,7 @@ func verifyFunction(P *Program, db *ContractDB, fn *ssa.Function, c *Contract, v
 	if vo.cexHook == nil {
 		vo.cexHook = globalCexHook
 	}
-	e := &Exec{P: P, sol: sol, db: db, top: fn, topC: c, obligs: map[string]*Oblig{}, onceLv: []map[*Term]bool{{}}, witLv: [][]*Term{nil}, inlined: map[string]bool{}, usedExt: map[string]bool{}, usedCtr: map[string]bool{}, loops: map[*ssa.Function]*LoopInfo{}, cexHook: vo.cexHook}
+	e := &Exec{P: P, sol: sol, db: db, top: fn, topC: c, obligs: map[string]*Oblig{}, onceLv: []map[*Term]bool{{}}, witLv: [][]*Term{nil}, predLv: [][]*Term{nil}, inlined: map[string]bool{}, usedExt: map[string]bool{}, usedCtr: map[string]bool{}, loops: map[*ssa.Function]*LoopInfo{}, cexHook: vo.cexHook}
 	e.curTags = c.Tags
 	e.safeTags = c.SafeTags
 	e.recvIface = vo.recvIface
